@@ -133,6 +133,15 @@ package cty
 //@ func (cty.ElementIterator).Element
 //@   trusted
 //@   ensures (and (wf_deep result.0) (wf_deep result.1))
+//@   ensures (=> (is_coll_ty (vty (it_coll recv))) (or (= (vty result.1) (elem_ty (vty (it_coll recv)))) (is_dyn_ty (elem_ty (vty (it_coll recv))))))
+//
+//@ func (cty.Value).ElementIterator
+//@   trusted
+//@   ensures (and (not (= result nil.Any)) (= (it_coll result) val))
 //
 //@ func (cty.ElementIterator).Next
 //@   trusted
+//
+//@ func (cty.Value).LengthInt
+//@   trusted
+//@   ensures (and (<= 0 result) (<= result 72057594037927936))
